@@ -16,7 +16,7 @@ TRUSTED = [
     "Lean 4.33 kernel; axioms ⊆ {propext, Classical.choice, Quot.sound}",
     "g++ -fsanitize=address,undefined and the counted operator new[]/delete[] of harness/mockcore/runner.cpp as the observer of memory errors and heap usage",
     "undefined behaviour other than what the heap model and ASan/UBSan observe is not covered; String buffers are the mock core's std::string",
-    "the mapping script statement -> emitted usage form (declMake/declCopy/assignVar/assignTemp/append/remove/get/len) is validated by the tie, not proved",
+    "the mapping script statement -> emitted usage form (declMake/declCopy/assignVar/assignTemp/append/remove/get/len/swap) is validated by the tie, not proved",
 ]
 HEAD = ["from Reduino.Communication import SerialMonitor"]
 
@@ -37,7 +37,7 @@ class Gen:
         rng = self.rng
         env = names_env
         names = sorted(env)
-        k = rng.choice(["ap", "ap", "rm", "rmv", "get", "get", "len", "av", "scan", "aps", "gl"] + ([] if self.owned else ["dc", "at", "af"]))
+        k = rng.choice(["ap", "ap", "rm", "rmv", "get", "get", "len", "av", "scan", "aps", "gl"] + ([] if self.owned else ["dc", "at", "af"]) + ["sw"])
         x = rng.choice(names)
         if k == "ap":
             v = rng.randint(-5, 9)
@@ -83,6 +83,14 @@ class Gen:
         if k == "gl":
             # index computed from len(): the last element
             return ("gl", x, len(env[x])) if env[x] else ("len", x)
+        if k == "sw":
+            # tuple swap of two distinct declared lists (any lengths): the emitted code exchanges the two structs
+            cands = [y for y in names if y != x]
+            if not cands:
+                return ("len", x)
+            y = rng.choice(cands)
+            env[x], env[y] = env[y], env[x]
+            return ("sw", x, y)
         if k == "af":
             # re-assignment from a helper that returns another (global) list: must clone like `x = y`
             cands = [y for y in names if y != x and y in ("a", "b", "c")]
@@ -115,6 +123,8 @@ def stmt(op):
         return f"for i in range(len({op[1]})):\n    mon.write({op[1]}[i])"
     if k in ("dc", "av"):
         return f"{op[1]} = {op[2]}"
+    if k == "sw":
+        return f"{op[1]}, {op[2]} = {op[2]}, {op[1]}"
     if k == "af":
         return f"{op[1]} = get_{op[2]}()"
     if k == "at":
@@ -145,7 +155,7 @@ def mtok(op):
         return f"get {op[1]} {op[2]};rm {op[1]} {op[3]}"
     if k == "scan":
         return ";".join([f"len {op[1]}"] + [f"get {op[1]} {i}" for i in range(op[2])])
-    if k in ("dc", "av"):
+    if k in ("dc", "av", "sw"):
         return f"{k} {op[1]} {op[2]}"
     if k == "af":
         return f"av {op[1]} {op[2]}"
@@ -187,6 +197,9 @@ def gen_case(rng, owned):
         if o[0] in ("af", "av") and env[o[1]]:
             # after a copying re-assignment: change the source, then read through the target (must still be its own copy)
             setup += [("ap", o[2], 88), ("rm", o[2], 88), ("get", o[1], 0)]
+        if o[0] == "sw":
+            # after a swap: read through both names (each must see the other's former buffer, still alive)
+            setup += [("get", n, i) for n, i in ((o[1], -1), (o[2], 0)) if env[n]]
     # loop body: ops whose net effect on sizes is zero in the owned discipline (append then remove the same value)
     loop = []
     for _ in range(rng.randint(1, 4)):
@@ -203,6 +216,13 @@ def gen_case(rng, owned):
             if o[0] in ("rmv", "rm", "gl") or (o[0] == "scan" and not owned):
                 o = ("len", o[1])     # per-pass tokens are static: no data-dependent forms in a loop whose sizes drift
             loop.append(o)
+    if any(o[0] == "sw" for o in loop):
+        # a swap in the body permutes the lists from pass to pass (the heap stays constant, the sizes behind a name do not):
+        # keep static indices valid for every list, and no per-pass token lists that depend on a name's size
+        m = min(len(v) for v in env.values())
+        fix = lambda o: (("get", o[1], max(-m, min(o[2], m - 1))) if m else ("len", o[1])) if o[0] == "get" else \
+                        ("len", o[1]) if o[0] in ("scan", "aps") else o
+        loop = [fix(o) for o in loop]
     return setup, loop
 
 
@@ -232,6 +252,7 @@ def py_run(setup, loop, passes):
         elif k == "rmv": env[o[1]].remove(env[o[1]][o[2]])
         elif k == "scan": out.extend(env[o[1]])
         elif k in ("dc", "av", "af"): env[o[1]] = env[o[2]]
+        elif k == "sw": env[o[1]], env[o[2]] = env[o[2]], env[o[1]]
         elif k == "at": env[o[1]] = list(o[2])
         elif k == "ap": env[o[1]].append(o[2])
         elif k == "aps": env[o[1]].append(env[o[1]][o[2]])
@@ -269,6 +290,12 @@ def run(ctx: Ctx) -> int:
                   [("ap", "a", 0), ("rm", "a", 0), ("len", "a")], 3))
     cases.append(("reassign-call", [("dm", "a", [1, 2, 3]), ("dm", "b", [7, 8, 9]), ("af", "b", "a"), ("ap", "a", 4), ("rm", "a", 4), ("get", "b", 0)],
                   [("af", "b", "a"), ("ap", "a", 77), ("rm", "a", 77), ("get", "b", -1)], 3))
+    # pinned sound form: tuple swap of two declared lists = exchange of the two structs (no allocation, no free)
+    cases.append(("swap-setup", [("dm", "a", [1, 2, 3]), ("dm", "b", [7, 8, 9, 10]), ("sw", "a", "b"), ("get", "a", 3), ("get", "b", -1), ("get", "a", 0),
+                                 ("get", "b", 0), ("ap", "a", 5), ("rm", "b", 1), ("get", "a", -1), ("get", "b", 0)],
+                  [("ap", "a", 77), ("rm", "a", 77), ("get", "b", -1), ("len", "a")], 3))
+    cases.append(("swap-loop", [("dm", "a", [1, 2, 3]), ("dm", "b", [7, 8, 9, 10])],
+                  [("sw", "a", "b"), ("ap", "a", 77), ("rm", "a", 77), ("get", "a", 0), ("get", "b", -1), ("len", "a")], 5))
     for i in range(ctx.n(180, 700)):
         owned = rng.random() < 0.8
         s, l = gen_case(rng, owned)
@@ -349,7 +376,7 @@ def run(ctx: Ctx) -> int:
         if len(set(pylive[1:])) == 1 and len(set(heaps[1:])) > 1:
             key = "heap:temp-leak" if "at" in forms else ("heap:list-copy-semantics" if ("dc" in forms) else "heap:leak-across-passes")
             ctx.fail(key, f"live array blocks per pass {heaps} while the Python program's live list data stays {pylive[1]}", replay)
-    ctx.cov["rule"] = ("list programs: 1-3 lists from literals/comprehensions, append/remove/index (incl. negative)/len/copy-assign in setup and in the main loop, "
+    ctx.cov["rule"] = ("list programs: 1-3 lists from literals/comprehensions, append/remove/index (incl. negative)/len/copy-assign/tuple swap of two lists in setup and in the main loop, "
                        "2-17 passes; 80% in the owned discipline (no alias-creating first copy, no re-assignment from a literal), 20% with those forms; "
                        "each compiled with -fsanitize=address,undefined and counted array new/delete")
     return ctx.finish(TRUSTED, search=None)
